@@ -190,12 +190,18 @@ HCIcnbit_decode(compinfo_t *info, int32 length, uint8 *buf)
     sign_byte     = nbit_info->nt_size - ((nbit_info->mask_off / 8) + 1);
     sign_mask     = mask_arr32[(nbit_info->mask_off % 8) + 1] ^ mask_arr32[nbit_info->mask_off % 8];
 
-    buf_size    = MIN(NBIT_BUF_SIZE, length);
-    buf_items   = buf_size / nbit_info->nt_size; /* compute # of items in buffer */
-    orig_length = length;                        /* save this for later */
+    /* Nothing decoded is carried over from one call to the next: every
+       re-fill expands exactly what the rest of this call still needs, so
+       calls of different lengths can follow each other. */
+    buf_size           = 0;
+    buf_items          = 0;
+    nbit_info->buf_pos = 0;
+    orig_length        = length;                 /* save this for later */
     while (length > 0) {                         /* decode until we have all the bytes */
         if (nbit_info->buf_pos >= buf_size) {    /* re-fill buffer */
-            rbuf = (uint8 *)nbit_info->buffer;   /* get a ptr to the buffer */
+            buf_size  = MIN(NBIT_BUF_SIZE, length);
+            buf_items = buf_size / nbit_info->nt_size; /* compute # of items in buffer */
+            rbuf      = (uint8 *)nbit_info->buffer;    /* get a ptr to the buffer */
 
             /* get initial copy of the mask */
             HDmemfill(rbuf, nbit_info->mask_buf, (uint32)nbit_info->nt_size, (uint32)buf_items);
